@@ -7,3 +7,10 @@ mod tasks;
 pub use event::{Event, ProcessorError, ProcessorStatus};
 pub(crate) use pipeline::Pipeline;
 pub(crate) use tasks::TaskTracker;
+
+/// Verification hook: re-exports of module-private items for the conformance harness.
+#[cfg(p2panda_p2panda_verif)]
+pub mod verif_api {
+    pub use super::pipeline::Pipeline;
+    pub use super::tasks::{Task, TaskTracker};
+}
